@@ -926,7 +926,7 @@ def gen_attr_case(rng, quick=True):
     for _ in range(2):
         V.append(dict(driver=rng.choice(["ih5", "ih5", "mf"]),
                       ins=[[pos, rng.choice(["patch", "patch", "reopen"])] for pos in range(1, n) if rng.random() < 0.35]))
-    if not quick and n <= 10:
+    if not quick and n <= 9 and rng.random() < 0.5:
         for a in range(1, n):
             for b in range(a + 1, n):
                 V.append(dict(driver="ih5", ins=[[a, "patch"], [b, "patch"]]))
@@ -1027,7 +1027,7 @@ def compare(case, ir, mo):
 
 # --------------------------------------------------------------------------- run
 N_CASES = {"quick": 40, "thorough": 320}
-N_ATTR = {"quick": 10, "thorough": 90}
+N_ATTR = {"quick": 10, "thorough": 40}
 
 
 def run(ctx):
